@@ -182,6 +182,8 @@ def sample_cfg(name: str, rng, tier: str = "quick", small: bool = True) -> dict:
         cfg["gen"] = {"num_loc": n, "variant_preset": preset}
         if rng.random() < 0.3:
             cfg["gen"]["speed"] = rng.choice([0.8, 2.0])  # 0.5 makes far customers unreachable within max_time
+        if rng.random() < 0.15:
+            cfg["gen"]["scale_demand"] = False  # documented: integer demands against the original capacity
     elif name == "fjsp":
         j, m = (rng.randint(2, 4), rng.randint(2, 3)) if not big else (rng.randint(5, 10), rng.randint(3, 5))
         lo = rng.randint(1, 3)
